@@ -314,6 +314,36 @@ func c10ProgComments(r *hx.Rng, n int) string {
 	return sb.String()
 }
 
+// retain lists (of a stage and of a pipeline) that name entries more than
+// once, in shuffled order: the compiler keeps one entry per output, and the
+// order of what it keeps must not depend on how it removes the repeats
+func c10ProgRetainRepeats(r *hx.Rng, n int) string {
+	names := c10Names("out", n)
+	var sb strings.Builder
+	sb.WriteString("filetype txt;\n\nstage MAKE(\n    in  int q,\n")
+	for _, o := range names {
+		fmt.Fprintf(&sb, "    out txt %s,\n", o)
+	}
+	sb.WriteString("    src comp \"make\",\n) retain (\n")
+	list := append([]string(nil), names...)
+	for k := 1 + r.Intn(3); k > 0; k-- {
+		list = append(list, names[r.Intn(len(names))])
+	}
+	for _, o := range c10Shuffle(r, list) {
+		fmt.Fprintf(&sb, "    %s,\n", o)
+	}
+	sb.WriteString(")\n\npipeline TOP(\n    in  int q,\n    out txt first,\n)\n{\n    call MAKE(\n        q = self.q,\n    )\n\n    return (\n        first = MAKE." + names[0] + ",\n    )\n\n    retain (\n")
+	plist := append([]string(nil), names[1:]...)
+	for k := 1 + r.Intn(3); k > 0 && len(names) > 1; k-- {
+		plist = append(plist, names[1+r.Intn(len(names)-1)])
+	}
+	for _, o := range c10Shuffle(r, plist) {
+		fmt.Fprintf(&sb, "        MAKE.%s,\n", o)
+	}
+	sb.WriteString("    )\n}\n\ncall TOP(\n    q = 3,\n)\n")
+	return sb.String()
+}
+
 func c10GenPrograms(tier string, r *hx.Rng, emit func(name, src string)) {
 	thorough := tier == "thorough"
 	mul := 1
@@ -351,6 +381,9 @@ func c10GenPrograms(tier string, r *hx.Rng, emit func(name, src string)) {
 	}
 	for i := 0; i < 8*mul; i++ {
 		emit("comments", c10ProgComments(r, 1+r.Intn(5)))
+	}
+	for i := 0; i < 6*mul; i++ {
+		emit("retain_repeats", c10ProgRetainRepeats(r, 3+r.Intn(6)))
 	}
 	for i := 0; i < 54*mul; i++ {
 		w := 2 + r.Intn(4)
